@@ -391,16 +391,10 @@ func ruleK2(p *Prog, r *Report) {
 					continue
 				}
 				// the list is the receiver's own: its elements field or the result of its Elements()
-				src := canon(callRecv(c))
-				own := false
-				if lf, ok := asLoadedField(src); ok && sameValue(lf.Base, f.Params[0]) {
-					own = true
-				}
-				if ex, ok := src.(*ssa.Extract); ok {
-					if c2, ok := ex.Tuple.(*ssa.Call); ok && calleeName(c2) == "Elements" && callRecv(c2) != nil && sameValue(callRecv(c2), f.Params[0]) {
-						own = true
-					}
-				}
+				// the list is the receiver's own: reached from the receiver (its elements field, its Elements(), the slab its id names)
+				q := &depQuery{p: p, memo: map[depKey]int{}, lost: map[depKey]ssa.Instruction{}}
+				recvP := f.Params[0]
+				own := q.dependsOn(callRecv(c), func(v ssa.Value) bool { return v == ssa.Value(recvP) }, map[ssa.Value]bool{}, 0)
 				if !own {
 					good = false
 					why = "the counted element list is not the group's own"
